@@ -398,6 +398,50 @@ def run(ctx):
     _c11.run(_Sub(ctx, 'C18.6-identifier-dependencies', 'c11', allow=('C11.3-eq-hash-fields',)))
     _c16.run(_Sub(ctx, 'C18.6-identifier-dependencies', 'c16', allow=('C16.4-',)))
 
+    # notified exactly once: a process can be linked to another at most once, whatever was asked twice or from both sides
+    ctx.rule('C18.3-links-are-a-set', 'the link and monitor tables of a process handle are sets (HashSet / BTreeSet): linking a pair twice, or from both sides, leaves one entry, so one exit notice per linked process; '
+             'a list would need a membership test in front of every insertion', floor=2)
+    PH = ctx.F.adts.get('edp_node::process::ProcessHandle')
+    if ctx.anchor(PH is not None, 'edp_node::process::ProcessHandle'):
+        for f in PH['variants'][0]['fields']:
+            if f['n'] not in ('links', 'monitors'):
+                continue
+            if 'HashSet<' in f['ty'] or 'BTreeSet<' in f['ty'] or 'DashSet<' in f['ty'] or 'HashMap<' in f['ty'] or 'BTreeMap<' in f['ty'] or 'DashMap<' in f['ty']:
+                ctx.ok('C18.3-links-are-a-set', f['n'], f['ty'][:120])
+                continue
+            # a sequence: every insertion must sit behind a `contains` test of the same collection
+            adder = ctx.body('edp_node::process::ProcessHandle::add_%s::{closure#0}' % f['n'].rstrip('s'))
+            guarded = False
+            if adder is not None:
+                pushes = [bb for bb, t in adder.calls() if (callee_of(t)[0] or '').rsplit('::', 1)[-1] in ('push', 'push_back', 'insert')]
+                conts = [bb for bb, t in adder.calls() if (callee_of(t)[0] or '').rsplit('::', 1)[-1] in ('contains', 'any', 'position')]
+                guarded = bool(pushes) and all(any(adder.block_dominates(c, p_) for c in conts) for p_ in pushes)
+            if guarded:
+                ctx.ok('C18.3-links-are-a-set', f['n'], 'a sequence whose insertions are all behind a membership test')
+            else:
+                ctx.bad('C18.3-links-are-a-set', f['n'], 'ProcessHandle.%s is %s, not a set, and insertions are not behind a membership test: a pair linked twice (or from both sides) holds the peer twice and the survivor gets two notices for one termination'
+                        % (f['n'], f['ty'][:80]), key='TYPE:edp_node::process::ProcessHandle.%s:not-a-set' % f['n'])
+
+    # gen_event answers every $gen_call, the failing ones included
+    ctx.rule('C18.5-gen-event-reply', 'in the gen_event manager every path from the handler call of a $gen_call request to the end of handle_message looks up the caller to send it {Reference, Reply}: '
+             'a failing or missing handler is answered too (with an error term), the caller is never left waiting', floor=1)
+    GE = None
+    for q in ctx.F.bodies:
+        if 'GenEventManager' in q and q.endswith('handle_message::{closure#0}'):
+            GE = P.B(q)
+    if ctx.anchor(GE is not None, 'GenEventManager::handle_message'):
+        hc = [(bb, t) for bb, t in GE.calls() if any(n.endswith('GenEventManager::call_handler') for n in callee_names(t))]
+        gets = set(bb for bb, t in GE.calls() if is_call_to(t, REG + '::get'))
+        if ctx.anchor(len(hc) >= 1, 'GenEventManager::handle_message -> call_handler'):
+            for hb, ht in hc:
+                later = gets & (GE.reachable(hb) - {hb})
+                rets = set(GE.return_blocks())
+                if later and GE.all_paths_pass(hb, later, rets):
+                    ctx.ok('C18.5-gen-event-reply', 'call', 'every path from call_handler to the return looks up the caller for the reply', ctx.where(GE, hb))
+                else:
+                    ctx.bad('C18.5-gen-event-reply', 'call', 'there is a path from the handler call to the end of handle_message that never looks up the caller: on it the $gen_call gets no {Reference, Reply} at all',
+                            ctx.where(GE, hb), key='PAIR:edp_node::gen_event::GenEventManager::handle_message:call-without-reply')
+
 
 def _param_name(B, base, projs):
     """name of the async-fn parameter (captured upvar) or local an origin denotes"""
